@@ -269,9 +269,15 @@ class ExceptionTrace(object):
         message = self._exception_message()
         markup = "<error>{}</error>".format(message)
 
-        if not message.endswith("\\") and self._is_markup(io, markup):
-            io.write_line(markup)
-            return
+        if not message.endswith("\\"):
+            try:
+                # Evaluated once (nothing is written when the formatter rejects it): style tags
+                # that earlier output left open would make a probe and the real thing disagree
+                io.write_line(markup)
+                return
+            except ValueError:
+                # Style tags that do not nest
+                pass
 
         # The message cannot be read as markup: it is written literally
         body = message.rstrip("\\")
@@ -285,15 +291,6 @@ class ExceptionTrace(object):
         except Exception:
             # The report must not fail because the exception cannot describe itself
             return "<exception str() failed>"
-
-    def _is_markup(self, io, string):  # type: (IO, str) -> bool
-        try:
-            io.remove_format(string)
-        except ValueError:
-            # Style tags that do not nest
-            return False
-
-        return True
 
     def _render_legacy(self, io):
         if hasattr(self._exception, "__traceback__"):
